@@ -1328,8 +1328,16 @@ impl<'source, 'trivia> GroupBuilder<'source, 'trivia> {
     ) {
         match item.token {
             TriviaToken::EmptyLine => {
-                self.strip_trailing_breaks();
-                self.items.push(FormatItem::LineBreak);
+                // Empty lines are kept between the expressions of a block.
+                // Within an expression they're dropped, the following item would otherwise lose
+                // its indentation.
+                if matches!(
+                    position_info,
+                    TriviaPosition::LineStart | TriviaPosition::ScriptEnd
+                ) {
+                    self.strip_trailing_breaks();
+                    self.items.push(FormatItem::LineBreak);
+                }
             }
             TriviaToken::CommentSingle | TriviaToken::SkipNode => {
                 if item.token == TriviaToken::SkipNode {
